@@ -31,10 +31,10 @@ LEVEL_NOTE = ('Grids are pairwise non-degenerate by construction and the referen
 RULE = ("cases: package configurations; executions: one whole pipeline run (data file with all plants of the configuration) and one evaluation per planted source; non-trivial = "
         "distinct (configuration, planted model, A_V0, distance) with a non-identity parameter table or a multi-aperture package")
 ASSUMPTIONS = ["pairwise non-degenerate model grids (margin measured by the reference)", "photometric errors equal relative size on all bands"]
-REQUIRED_CLASSES = ['mode-2d', 'mode-3d', 'fmt-v1', 'fmt-v2', 'planted-at-av-range-end', 'planted-first-distance', 'planted-last-distance', 'permuted-table', 'listing-first-row', 'seds-on-different-grids', 'dead-model-in-package', 'plot-only-band-with-wrong-value', 'seds-stored-in-Jy', 'pipeline-run-twice']
+REQUIRED_CLASSES = ['mode-2d', 'mode-3d', 'fmt-v1', 'fmt-v2', 'planted-at-av-range-end', 'planted-first-distance', 'planted-last-distance', 'permuted-table', 'listing-first-row', 'seds-on-different-grids', 'dead-model-in-package', 'plot-only-band-with-wrong-value', 'seds-stored-in-Jy', 'pipeline-run-twice', 'distance-range-in-pc', 'object-result-after-other-package', 'layout-changed-between-convolutions']
 TIMEOUT = {'quick': 600, 'thorough': 3000}
 
-AXES = {'fmt': ['v1', 'v2'], 'n_ap': [3, 1], 'n_models': [4, 2, 6], 'perm': ['rotated', 'identity', 'reversed'], 'sord': ['wav-desc', 'wav-asc'], 'rel': [0.01, 0.1], 'grids': ['same', 'interior'], 'dead': [False, True], 'funit': ['mJy', 'Jy']}
+AXES = {'fmt': ['v1', 'v2'], 'n_ap': [3, 1], 'n_models': [4, 2, 6], 'perm': ['rotated', 'identity', 'reversed'], 'sord': ['wav-desc', 'wav-asc'], 'rel': [0.01, 0.1], 'grids': ['same', 'interior'], 'dead': [False, True], 'funit': ['mJy', 'Jy'], 'dunit': ['kpc', 'pc']}
 
 
 def setup(tier, seed):
@@ -72,12 +72,24 @@ def run_case(ctx, case, rec, d):
     filt, fdefs = sp.filters()
     rec.cls('mode-' + mode)
     rec.cls('fmt-' + fmt)
+    if case.get('dunit', 'kpc') != 'kpc':
+        rec.cls('distance-range-in-pc')
     if perm != sorted(perm):
         rec.cls('permuted-table')
     cfg = tuple(sorted((k, str(v)) for k, v in case.items() if k != '_deviations'))
     rec.state(cfg)
     try:
-        convolve_model_dir(pk['md'], filt)
+        # the filters are convolved in two separate runs; between them one SED file of a per-file package gets gzipped
+        # (the format allows either), which changes the order in which the files are found
+        convolve_model_dir(pk['md'], filt[:2])
+        if fmt == 'v1' and n_models >= 2:
+            import gzip, shutil, glob as _g
+            victim = sorted(_g.glob(os.path.join(pk['md'], 'seds', '*.fits')))[-1]
+            with open(victim, 'rb') as fi_, gzip.open(victim + '.gz', 'wb') as fo_:
+                shutil.copyfileobj(fi_, fo_)
+            os.remove(victim)
+            rec.cls('layout-changed-between-convolutions')
+        convolve_model_dir(pk['md'], filt[2:])
     except Exception as e:
         from mc.runner import exc_signature
         rec.violation('pipeline|convolve|' + exc_signature(e), {'stage': 'convolve'}, {'type': type(e).__name__, 'msg': str(e)[:300]})
@@ -148,7 +160,7 @@ def run_case(ctx, case, rec, d):
     out = os.path.join(d, 'fits.out')
     law = fc.law_object('power')
     try:
-        fit(data, bands, theta * u.arcsec, pk['md'], out, n_data_min=2, extinction_law=law, av_range=[avlo, avhi], distance_range=np.array([dmin, dmax]) * u.kpc,
+        fit(data, bands, theta * u.arcsec, pk['md'], out, n_data_min=2, extinction_law=law, av_range=[avlo, avhi], distance_range=(np.array([dmin, dmax]) * u.kpc).to(u.Unit(case.get('dunit', 'kpc'))),
             output_format=('N', 3), output_convolved=False)
         fin = FitInfoFile(out, 'r')
         recs = list(fin)
@@ -179,6 +191,36 @@ def run_case(ctx, case, rec, d):
     except Exception as e:
         from mc.runner import exc_signature
         rec.violation('pipeline|second-run|' + exc_signature(e), {'stage': 'fit again'}, {'type': type(e).__name__, 'msg': str(e)[:300]})
+    # ---- the object interface: fit a planted source with a Fitter, fit another package (same model names, other parameter
+    # file) with a second Fitter, then list the FIRST result: it must show the first package's parameter row
+    try:
+        from sedfitter.fit import Fitter
+        fa = Fitter(list(bands), theta * u.arcsec, pk['md'], extinction_law=law, av_range=[avlo, avhi], distance_range=np.array([dmin, dmax]) * u.kpc)
+        p0 = plants[len(plants) // 2]
+        s0 = Source()
+        s0.name, s0.x, s0.y = 'objplant', 1.0, 2.0
+        s0.valid = np.array(p0['flags'])
+        s0.flux, s0.error = p0['flux'], p0['err']
+        info_a = fa.fit(s0)
+        pk_b = sp.build(d, 'pkg_b', fmt, n_models, n_ap, perm[::-1], sord=case['sord'], seed=seed + 3, n_cols=2)
+        from ref import pkgwriter as _pw
+        _pw.write_parameters(pk_b['md'], pk_b['table_order'] if fmt == 'v2' else pk_b['names'], {c_: np.arange(n_models) * -1.0 - 100.0 * (i_ + 1) for i_, c_ in enumerate(pk_b['colnames'])},
+                             order=None if fmt == 'v2' else perm[::-1])
+        convolve_model_dir(pk_b['md'], filt)
+        fb = Fitter(list(bands), theta * u.arcsec, pk_b['md'], extinction_law=law, av_range=[avlo, avhi], distance_range=np.array([dmin, dmax]) * u.kpc)
+        fb.fit(s0)
+        lst = os.path.join(d, 'listing_obj.txt')
+        sedfitter.write_parameters(info_a, lst, select_format=('N', 1))
+        _, blk_o = pc.parse_write_parameters(lst)
+        rec.trans(4)
+        rec.ev()
+        rec.cls('object-result-after-other-package')
+        row = blk_o[0]['rows'][0]
+        if not all(pc.close_e(a_, b_) for a_, b_ in zip(row['pars'], pk['pardict'][row['model']])):
+            rec.violation('pipeline|listing|other-package', {'stage': 'object interface'}, {'problem': 'listing of a result obtained with package A shows %r for %s after package B was fitted; A says %r' % (row['pars'], row['model'], pk['pardict'][row['model']])})
+    except Exception as e:
+        from mc.runner import exc_signature
+        rec.violation('pipeline|object-interface|' + exc_signature(e), {'stage': 'object interface'}, {'type': type(e).__name__, 'msg': str(e)[:300]})
     if len(recs) != len(plants) or len(blocks) != len(plants):
         rec.violation('pipeline|record-count', {}, {'records': len(recs), 'listing_blocks': len(blocks), 'sources': len(plants)})
         return
